@@ -29,7 +29,7 @@ Acts(b) ==
 EditActs(b) ==
   {[op |-> "set_item", i |-> i, arg |-> a] : i \in 1..Len(b.entries), a \in {C2, C3, C4, RestArg}} \cup
   {[op |-> "place_at", i |-> i, arg |-> C2] : i \in {j \in 1..Len(b.entries) : ~b.entries[j].c.rest /\ \A k \in 1..Len(b.entries) : b.entries[k].at = b.entries[j].at => k = j}} \cup
-  {[op |-> "set_meter", count |-> m[1], unit |-> m[2]] : m \in {<<4,4>>, <<6,8>>, <<3,6>>, <<5,4>>, <<0,0>>, <<2,3>>, <<12,8>>, <<4,5>>, <<3,2>>, <<7,12>>, <<4,-4>>, <<3,-1>>, <<4,0>>, <<2,-2>>, <<6,-8>>, <<0,4>>, <<0,1>>, <<0,8>>, <<0,3>>}}      \* count 0 with a beat unit: accepted when the unit is a power of two, length 0
+  {[op |-> "set_meter", count |-> m[1], unit |-> m[2]] : m \in {<<4,4>>, <<6,8>>, <<3,6>>, <<5,4>>, <<0,0>>, <<2,3>>, <<12,8>>, <<4,5>>, <<3,2>>, <<7,12>>, <<4,-4>>, <<3,-1>>, <<4,0>>, <<2,-2>>, <<6,-8>>}}      \* (meters of count 0 with a beat unit are exercised by systematic cases of the plan, not by the walks: a walk that enters such a bar stays in finding F13-02)
 Step(b, a) == CASE a.op = "place_notes" -> Place(b, a.v, a.arg)
                 [] a.op = "place_rest" -> Place(b, a.v, RestArg)
                 [] a.op = "plus" -> Place(b, PlusValue(b), a.arg)
